@@ -304,6 +304,16 @@ impl<'tcx> Cx<'tcx> {
                 if u.promoted.is_none() {
                     let did = rustc_internal::internal(self.tcx, u.def.def_id());
                     if let Ok(cv) = self.tcx.const_eval_poly(did) {
+                        if let rustc_middle::mir::ConstValue::Slice { alloc_id, meta } = cv {
+                            if let rustc_middle::mir::interpret::GlobalAlloc::Memory(m) = self.tcx.global_alloc(alloc_id) {
+                                let a = m.inner();
+                                let len = meta as usize;
+                                if len <= a.len() {
+                                    let bytes = a.inspect_with_uninit_and_ptr_outside_interpreter(0..len);
+                                    v.push(("str", s(String::from_utf8_lossy(bytes).to_string())));
+                                }
+                            }
+                        }
                         if let Some(sc) = cv.try_to_scalar_int() {
                             let signed = matches!(ty.kind(), TyKind::RigidTy(RigidTy::Int(_)));
                             if signed {
@@ -316,6 +326,30 @@ impl<'tcx> Cx<'tcx> {
                 }
                 if let Some(p) = u.promoted {
                     v.push(("promoted", i(p)));
+                    // evaluate simple promoteds: `_1 = <rvalue>; _0 = &_1`
+                    let did = rustc_internal::internal(self.tcx, u.def.def_id());
+                    let proms = self.tcx.promoted_mir(did);
+                    if let Some(pb) = proms.get(rustc_middle::mir::Promoted::from_u32(p)) {
+                        let sb: Body = rustc_internal::stable(pb);
+                        let mut inits = Vec::new();
+                        for bb in sb.blocks.iter() {
+                            for st in bb.statements.iter() {
+                                if let StatementKind::Assign(pl, rv) = &st.kind {
+                                    if pl.local != 0 && pl.projection.is_empty() {
+                                        if !matches!(rv, Rvalue::Ref(..)) {
+                                            inits.push(J::Obj(vec![
+                                                ("l", i(pl.local)),
+                                                ("r", self.rvalue_j(rv, sb.locals())),
+                                            ]));
+                                        }
+                                    }
+                                }
+                            }
+                        }
+                        if !inits.is_empty() && inits.len() <= 8 {
+                            v.push(("pinit", J::Arr(inits)));
+                        }
+                    }
                 }
             }
             ConstantKind::ZeroSized => {
